@@ -37,7 +37,7 @@ Record KO (s s' : core) : Prop := {
   ko_pfds : pfds s' = pfds s; ko_pkeys : pkeys s' = pkeys s; ko_heap : heap s' = heap s;
   ko_cur : cur s' = cur s; ko_evb : ev_batch s' = ev_batch s; ko_tfd : tfd s' = tfd s;
   ko_method : method s' = method s; ko_epfd : epfd s' = epfd s; ko_ep : ep (kern s') = ep (kern s);
-  ko_numfds : numfds s' = numfds s; ko_pw : pwait2 s' = pwait2 s;
+  ko_numfds : numfds s' = numfds s;
 }.
 Lemma KO_refl : forall s, KO s s. Proof. intros; constructor; reflexivity. Qed.
 Lemma KO_trans : forall a b c, KO a b -> KO b c -> KO a c.
@@ -142,6 +142,21 @@ Proof.
     destruct (IH s1 (proj1 S1) Wl) as (s2 & E2 & S2). exists s2. split; [assumption|eapply WaitStep_trans; eassumption].
 Qed.
 
+(* ---------- the poll method changes within its family ---------- *)
+Lemma InvW_set_method : forall s m, InvW s -> is_epoll (set_method s m) = is_epoll s -> 0 <= m <= 3 ->
+  InvW (set_method s m).
+Proof.
+  intros s m [A B C D E F G H] EQ M. constructor.
+  - destruct A. constructor; rewrite ?EQ; assumption.
+  - intros k. specialize (B k). unfold sync_at in *. rewrite EQ. exact B.
+  - destruct C. constructor; assumption.
+  - exact D.
+  - apply (TaskInv_same s); [reflexivity..|exact E].
+  - destruct F. constructor; rewrite ?EQ; assumption.
+  - destruct G. constructor; assumption.
+  - destruct H. constructor; rewrite ?EQ; assumption.
+Qed.
+
 (* ---------- iv_fd_make_ready / activation of reported descriptors ---------- *)
 Lemma upd_ready_fields : forall s k r k0,
   let g := upd (fdt s) k (fd_with_ready (fdt s k) r) in
@@ -194,7 +209,7 @@ Record AFr (s s' : core) : Prop := {
 }.
 Lemma AFr_refl : forall s, AFr s s. Proof. intros; constructor; reflexivity. Qed.
 Lemma AFr_trans : forall a b c, AFr a b -> AFr b c -> AFr a c.
-Proof. intros a b c [] []. constructor; try congruence. intros k. rewrite af_reg1. apply af_reg0. Qed.
+Proof. intros a b c [] []. constructor; first [congruence | intros k; rewrite af_reg1; apply af_reg0]. Qed.
 Lemma AFr_live : forall s s' k, AFr s s' -> live s (-1) k -> live s' (-1) k.
 Proof. intros s s' k A L. apply live_none. apply live_none in L. rewrite (af_reg _ _ A). exact L. Qed.
 Lemma AFr_tm : forall s s', AFr s s' -> tm s s'.
@@ -329,7 +344,7 @@ Proof.
   intros k maxev timeout rot NO. unfold k_epoll_sleep. cbv zeta.
   set (order := rotate _ (sort_ents (ep k))).
   assert (ORD : forall e, In e order -> In e (ep k)).
-  { intros e H. subst order. apply In_rotate in H. apply In_sort_ents in H. exact H. }
+  { intros e H. subst order. apply In_rotate in H. apply (proj1 (In_sort_ents _ _)) in H. exact H. }
   assert (SC : forall kX m, scan_of k kX (ep_scan kX order m)).
   { intros kX m x X. destruct (In_ep_scan _ _ _ _ X) as (e & A & B). exists e. split; [apply ORD; assumption|assumption]. }
   destruct (ep_scan k order (Z.to_nat maxev)) as [|x0 evs0] eqn:SCAN.
@@ -377,6 +392,150 @@ Proof.
   change (K_TIMERFD =? K_TIMERFD) with true. cbv iota. rewrite C. eexists _, _. reflexivity.
 Qed.
 
+(* ---------- creation of the timer descriptor (iv_fd_epoll_timerfd_set_poll_timeout) ---------- *)
+Lemma no_tfd_entry : forall s e, FdInv (-1) s -> tfd s = -1 -> In e (ep (kern s)) -> en_data e <> -2.
+Proof.
+  intros s e I T H Q. destruct (fv_ent _ _ I e H) as [((A&_)&_)|[(A&_)|(_&B&_&D)]]; lia.
+Qed.
+
+(* stage B: the field st->u.epoll.timer_fd is set to a fresh timerfd *)
+Lemma InvW_tfd_set : forall s fd, InvW s -> tfd s = -1 -> 1000 <= fd ->
+  (exists v, k_get (kern s) fd = Some v /\ vkind v = K_TIMERFD) ->
+  InvW (set_epoll s (epfd s) fd (pwait2 s)).
+Proof.
+  intros s fd [A B C D E F G H] T FD V. constructor.
+  - pose proof A as A'. destruct A. constructor; try assumption.
+    intros e He. destruct (fv_ent e He) as [X|[X|(X&Y&_&Z)]]; [left; exact X|right; left; exact X|lia].
+  - intros k. exact (B k).
+  - destruct C. constructor; try assumption.
+    + right. split; [assumption|exact V].
+    + intros e He Q. exfalso. eapply no_tfd_entry; eassumption.
+  - exact D.
+  - apply (TaskInv_same s); [reflexivity..|exact E].
+  - destruct F. constructor; assumption.
+  - destruct G. constructor; assumption.
+  - destruct H. constructor; assumption.
+Qed.
+
+(* stage C: its entry is added to the interest list *)
+Lemma InvW_tfd_ctl : forall s k', InvW s -> is_epoll s = true -> 1000 <= tfd s ->
+  kctl (kern s) k' -> ep k' = ep (kern s) ++ [ctl_ent (tfd s) B_IN (-2)] ->
+  (exists v, k_open (kern s) (tfd s) = Some v /\ vkind v = K_TIMERFD) ->
+  ep_find (ep (kern s)) (tfd s) = false ->
+  (forall k, live s (-1) k -> fdnum (fdt s k) <> tfd s) ->
+  InvW (set_kern s k').
+Proof.
+  intros s k' [A B C D E F G H] EP T KC EK (v & V1 & V2) NF NL.
+  assert (INE : forall e, In e (ep k') <-> In e (ep (kern s)) \/ e = ctl_ent (tfd s) B_IN (-2)).
+  { intros e. rewrite EK, in_app_iff. cbn [In]. intuition congruence. }
+  constructor.
+  - apply (FdInv_rebuild_ep (-1) s); try reflexivity; try assumption.
+    + intros k. repeat split.
+    + intros fd. apply kctl_open. assumption.
+    + intros e He. apply INE in He. destruct He as [He| ->]; [exact (fv_ent _ _ A e He)|].
+      right; right. cbn [ctl_ent en_data en_fd en_events]. repeat split; assumption.
+    + intros k L R. destruct (fv_has _ _ A EP k L R) as (e & X & Y). exists e. split; [apply INE; left; assumption|exact Y].
+    + intros k L R. change (kern (set_kern s k')) with k'. rewrite EK, ep_find_app.
+      change (fdt (set_kern s k')) with (fdt s). rewrite (fv_none _ _ A EP k L R). cbn [ep_find ctl_ent en_fd orb].
+      rewrite orb_false_r. apply Z.eqb_neq. intros Q. apply (NL k L). symmetry. exact Q.
+    + change (kern (set_kern s k')) with k'. rewrite EK. apply NoDup_fd_app; [apply (fv_nodup _ _ A)|exact NF].
+    + intros e He. change (kern (set_kern s k')) with k' in *. rewrite (kctl_get _ _ _ KC). apply INE in He.
+      destruct He as [He| ->]; [apply (fv_ealloc _ _ A); assumption|].
+      cbn [ctl_ent en_fd]. apply k_open_some_get. congruence.
+    + apply (fv_ref _ _ A).
+    + intros Q. destruct (fv_kick _ _ A Q) as (e & X & Y). exists e. split; [apply INE; left; assumption|exact Y].
+  - intros k. apply sync_at_same with (s := s); try reflexivity. apply B.
+  - assert (FL : flt k' = flt (kern s)) by (destruct KC as (_&_&_&_&Q); exact Q).
+    destruct C. constructor; sp; try assumption.
+    + intros j J. specialize (dy_kern j J). destruct (efd_raw s =? 0); [eapply pipe_ok_kctl|eapply evfd_ok_kctl]; eassumption.
+    + rewrite FL. assumption.
+    + rewrite FL. assumption.
+    + intros J. destruct (dy_act J) as (X & (v0 & Y1 & Y2) & W). split; [assumption|]. split.
+      * exists v0. rewrite (kctl_open _ _ _ KC). tauto.
+      * destruct W as [W|W]; [left; assumption|right; eapply pipe_ok_kctl; eassumption].
+    + destruct dy_tfd as [X|(X & v0 & Y1 & Y2)]; [left; assumption|right]. split; [assumption|]. exists v0.
+      rewrite (kctl_get _ _ _ KC). tauto.
+    + intros e He Q. exists v. rewrite (kctl_open _ _ _ KC). tauto.
+  - exact D.
+  - apply (TaskInv_same s); [reflexivity..|exact E].
+  - apply (EvInv_same s); [constructor; reflexivity|exact F].
+  - destruct G. constructor; assumption.
+  - destruct H as [H1 H2 H3 H4]. constructor; sp; try assumption.
+    + destruct KC as (_&_&_&_&Q). rewrite Q. assumption.
+    + eapply kctl_KInv; eassumption.
+Qed.
+
+Record TcFr (s s' : core) : Prop := {
+  tc_heap : heap s' = heap s; tc_cur : cur s' = cur s; tc_evb : ev_batch s' = ev_batch s;
+  tc_active : active s' = active s; tc_nwait : nwait (kern s') = nwait (kern s); tc_epfd : epfd s' = epfd s;
+}.
+Lemma TcFr_refl : forall s, TcFr s s. Proof. intros; constructor; reflexivity. Qed.
+Lemma TcFr_trans : forall a b c, TcFr a b -> TcFr b c -> TcFr a c.
+Proof. intros a b c [] []. constructor; congruence. Qed.
+Lemma TcFr_Q3 : forall s s', TcFr s s' -> Q3 s -> Q3 s'.
+Proof. intros s s' [] (A&B&C). unfold Q3. rewrite tc_heap0, tc_cur0, tc_evb0. tauto. Qed.
+
+Lemma tfd_create_ok : forall s, InvW s -> method s = M_ET -> tfd s = -1 ->
+  let fd := next_fd (kern s) in
+  let k1 := snd (k_alloc (kern s) K_TIMERFD) in
+  let s1 := set_epoll (set_kern s k1) (epfd s) fd (pwait2 s) in
+  exists s2, ctl_retry s1 CTL_ADD fd B_IN (-2) = (s2, None) /\ InvW s2 /\ TcFr s s2 /\ tfd s2 = fd /\
+             method s2 = M_ET /\ 1000 <= fd.
+Proof.
+  intros s I M T fd k1 s1.
+  pose proof (ms_kinv _ (iw_misc _ I)) as KI. pose proof (iw_fd _ I) as FI.
+  destruct (alloc_spec (kern s) K_TIMERFD (ki_alloc _ KI)) as (A1 & A2 & A3 & A4 & A5 & A6). fold k1 in A2, A3, A4, A5. fold fd in A4, A6.
+  assert (FD : 1000 <= fd) by (apply (ki_next _ KI)).
+  assert (LT : forall x, k_get (kern s) x <> None -> x <> fd).
+  { intros x G. apply (ki_alloc _ KI) in G. subst fd. lia. }
+  assert (IA : InvW (set_kern s k1)) by (apply InvW_kstable; assumption).
+  assert (I1 : InvW s1).
+  { subst s1. apply (InvW_tfd_set (set_kern s k1) fd IA T FD). exists (vfd0 K_TIMERFD). split; [exact A4|reflexivity]. }
+  assert (O1 : k_open (kern s1) fd = Some (vfd0 K_TIMERFD)) by (apply k_get_open; [exact A4|reflexivity]).
+  assert (NF : ep_find (ep (kern s1)) fd = false).
+  { change (kern s1) with k1. rewrite (kt_ep _ _ A2). apply ep_find_false. intros e He.
+    apply LT. apply (fv_ealloc _ _ FI). assumption. }
+  destruct (ctl_retry_spec s1 CTL_ADD fd B_IN (-2)) as (k' & CR & KC & EK).
+  rewrite (ctl_pure_add (kern s1) fd B_IN (-2)) in CR, EK by (assumption || congruence). cbn [fst snd] in CR, EK.
+  exists (set_kern s1 k'). split; [exact CR|]. split.
+  - apply (InvW_tfd_ctl s1 k' I1); try assumption.
+    + unfold is_epoll. change (method s1) with (method s). rewrite M. reflexivity.
+    + exists (vfd0 K_TIMERFD). split; [exact O1|reflexivity].
+    + intros k L. change (fdt s1 k) with (fdt s k). change (tfd s1) with fd. apply LT.
+      apply k_open_some_get. apply (fv_open _ _ FI). exact L.
+  - split; [|split; [reflexivity|split; [exact M|exact FD]]].
+    constructor; try reflexivity. change (nwait (kern (set_kern s1 k'))) with (nwait k').
+    destruct KC as (_&_&_&Q&_). rewrite Q. change (nwait (kern s1)) with (nwait k1). apply (kt_nwait _ _ A2).
+Qed.
+
+Lemma tfd_create_ok' : forall s fd k1, InvW s -> method s = M_ET -> tfd s = -1 ->
+  k_alloc (kern s) K_TIMERFD = (fd, k1) ->
+  exists s2, ctl_retry (set_epoll (set_kern s k1) (epfd s) fd (pwait2 s)) CTL_ADD fd B_IN (-2) = (s2, None) /\
+             InvW s2 /\ TcFr s s2 /\ tfd s2 = fd /\ method s2 = M_ET /\ 1000 <= fd.
+Proof.
+  intros s fd k1 I M T KA. pose proof (tfd_create_ok s I M T) as H. cbv zeta in H. rewrite KA in H. cbn [snd] in H.
+  assert (fd = next_fd (kern s)) by (unfold k_alloc in KA; congruence). subst fd. exact H.
+Qed.
+
+(* small steps of iv_fd_timeout_check *)
+Definition Sm (s s' : core) : Prop := InvW s' /\ TcFr s s' /\ tm s s'.
+Lemma Sm_refl : forall s, InvW s -> Sm s s.
+Proof. intros. split; [assumption|split; [apply TcFr_refl|apply tm_refl]]. Qed.
+Lemma Sm_trans : forall a b c, Sm a b -> Sm b c -> Sm a c.
+Proof. intros a b c (A1&A2&A3) (B1&B2&B3). split; [assumption|split; [eapply TcFr_trans|eapply tm_trans]; eassumption]. Qed.
+
+Lemma Sm_settime : forall s d, InvW s -> Sm s (tfd_settime s d).
+Proof.
+  intros s d I. unfold tfd_settime. pose proof (kstable_settime (kern s) (tfd s) d) as KS.
+  split; [apply InvW_emit; [apply InvW_kstable; assumption|discriminate..]|].
+  split; [constructor; try reflexivity; apply (kt_nwait _ _ KS)|repeat split].
+Qed.
+Lemma Sm_last_abs : forall s a c, InvW s -> Sm s (set_last_abs s a c).
+Proof.
+  intros s a c I. split; [apply (InvW_coresame s); [cs_refl|apply (ms_nobad _ (iw_misc _ I))|assumption]|].
+  split; [constructor; reflexivity|repeat split].
+Qed.
+
 Section Wait.
 Variable sc : scenario.
 Hypothesis WF : wf_scenario sc.
@@ -396,6 +555,380 @@ Proof.
     + eapply KO_trans; [|exact K2]. constructor; reflexivity.
     + rewrite N2. reflexivity.
     + rewrite N2. exact GE.
+Qed.
+
+(* ---------- the epoll waits ---------- *)
+Definition halts (r : res) : Prop := match r with Halt s => nobad (trace s) | R _ => False end.
+Lemma halts_okr : forall P r, halts r -> okr P r.
+Proof. intros P [s|s] H; [contradiction|exact H]. Qed.
+Lemma halts_halt : forall s e, nobad (trace s) -> e <> TCrash -> e <> TFatal -> halts (halt s e).
+Proof. intros. unfold halt. cbn [halts]. sp. apply nobad_cons; assumption. Qed.
+
+Definition tfd_readable (s : core) : Prop :=
+  exists v, k_open (kern s) (tfd s) = Some v /\ vkind v = K_TIMERFD /\ has (k_cond (kern s) (tfd s)) B_IN = true.
+
+Definition WPost (s : core) (w : wres) : Prop :=
+  match w with
+  | WR s' evs => InvW s' /\ KO s s' /\ nwait (kern s') = nwait (kern s) + 1 /\ nwait (kern s') <= sc_limit sc /\
+                 (forall x, In x evs -> ev_ok s' x) /\ ((exists x, In x evs /\ snd x = -2) -> tfd_readable s')
+  | WE s' => InvW s' /\ KO s s' /\ nwait (kern s') = nwait (kern s) + 1 /\ nwait (kern s') <= sc_limit sc
+  | WH r => halts r
+  end.
+
+Lemma do_epoll_wait_ok : forall s call maxev timeout, InvW s -> TfdM s -> WPost s (do_epoll_wait sc s call maxev timeout).
+Proof.
+  intros s call maxev timeout I TM. unfold do_epoll_wait.
+  pose proof (wait_enter_ok s I) as WE. destruct (wait_enter sc s) as [s1|s1]; cbn [okr] in WE; [|exact WE].
+  destruct WE as (I1 & K1 & N1 & L1). cbv zeta.
+  set (s2 := emit s1 (TWait _ _ _ _ _ _)).
+  assert (I2 : InvW s2) by (apply InvW_emit; [assumption|discriminate..]).
+  assert (K2 : KO s s2) by (eapply KO_trans; [exact K1|]; constructor; reflexivity).
+  destruct (mem_z _ _).
+  - (* EINTR *)
+    set (s3 := if 0 <? timeout then set_kern s2 (k_set_clock (kern s2) (clock (kern s2) + timeout / 2)) else s2).
+    assert (S3 : InvW s3 /\ KO s2 s3 /\ nwait (kern s3) = nwait (kern s2)).
+    { subst s3. destruct (0 <? timeout); [|split; [assumption|split; [apply KO_refl|reflexivity]]].
+      split; [apply InvW_kstable; [assumption|apply kstable_clock]|]. split; [constructor; reflexivity|reflexivity]. }
+    destruct S3 as (I3 & K3 & N3). cbn [WPost].
+    split; [apply InvW_emit; [assumption|discriminate..]|].
+    split; [eapply KO_trans; [exact K2|]; eapply KO_trans; [exact K3|]; constructor; reflexivity|].
+    change (nwait (kern (emit s3 (TRet None [] (clock (kern s3)))))) with (nwait (kern s3)).
+    rewrite N3. change (nwait (kern s2)) with (nwait (kern s1)). tauto.
+  - pose proof (sleep_spec (kern s2) maxev timeout (sc_rot sc (nwait (kern s1)))
+                 (fun e H => no_oneshot s2 e (iw_fd _ I2) H)) as SP.
+    change (kern s2) with (kern s1) in *.
+    destruct (k_epoll_sleep (kern s1) maxev timeout (sc_rot sc (nwait (kern s1)))) as [k' evs|k'| |]; try contradiction.
+    + destruct SP as (kX & KX & -> & SC).
+      assert (GX : forall fd, k_get kX fd = k_get (kern s1) fd) by (destruct KX as [->|(w & ->)]; reflexivity).
+      assert (EX : ep kX = ep (kern s1)) by (destruct KX as [->|(w & ->)]; reflexivity).
+      assert (NX : nwait kX = nwait (kern s1)) by (destruct KX as [->|(w & ->)]; reflexivity).
+      assert (KS : kstable (kern s2) (k_set_ep kX (ep (kern s1)))).
+      { eapply kstable_trans; [|apply kstable_setep_same; symmetry; exact EX].
+        destruct KX as [->|(w & ->)]; [apply kstable_refl|apply kstable_clock]. }
+      cbn [WPost]. set (s3 := emit (set_kern s2 (k_set_ep kX (ep (kern s1)))) _).
+      assert (I3 : InvW s3) by (apply InvW_emit; [apply InvW_kstable; assumption|discriminate..]).
+      split; [assumption|]. split; [eapply KO_trans; [exact K2|]; constructor; reflexivity|].
+      split; [change (nwait (kern s3)) with (nwait kX); rewrite NX; exact N1|].
+      split; [change (nwait (kern s3)) with (nwait kX); rewrite NX; exact L1|].
+      pose proof (iw_fd _ I1) as FI1.
+      split.
+      * intros x X. destruct (SC x X) as (e & E1 & -> & _). unfold ev_ok. cbn [snd].
+        destruct (fv_ent _ _ FI1 e E1) as [(A&_)|[(A&_)|(A&B&_&D)]]; [right; right; exact A|left; exact A|right; left].
+        split; [assumption|]. change (method s3) with (method s1). rewrite (ko_method _ _ K1). apply TM.
+        rewrite <- (ko_tfd _ _ K1). lia.
+      * intros (x & X & X2). destruct (SC x X) as (e & E1 & -> & RB). cbn [snd] in X2.
+        assert (TF : en_fd e = tfd s1).
+        { destruct (fv_ent _ _ FI1 e E1) as [((A&_)&_)|[(A&_)|(_&B&_)]]; [lia|lia|assumption]. }
+        destruct (dy_tfdent _ (iw_dyn _ I1) e E1 X2) as (v & V1 & V2).
+        unfold tfd_readable. change (tfd s3) with (tfd s1). change (kern s3) with (k_set_ep kX (ep (kern s1))).
+        exists v. split; [|split; [assumption|]].
+        -- unfold k_open in *. change (k_get (k_set_ep kX (ep (kern s1))) (tfd s1)) with (k_get kX (tfd s1)). rewrite GX. exact V1.
+        -- rewrite cond_set_ep, <- TF. apply (tfd_ready kX e v); [|assumption|assumption].
+           rewrite GX, TF. apply k_open_get in V1. apply V1.
+    + cbn [WPost]. apply halts_halt; [apply (ms_nobad _ (iw_misc _ I2))|discriminate..].
+Qed.
+
+Lemma WaitStep_validate : forall s, InvW s -> WaitStep s (validate_now s).
+Proof.
+  intros s I. split; [apply InvW_validate; assumption|]. unfold validate_now. destruct (time_valid s).
+  - split; [apply KO_refl|reflexivity].
+  - split; [constructor; reflexivity|reflexivity].
+Qed.
+
+Lemma WPost_pre : forall s s0 w, WaitStep s s0 -> WPost s0 w -> WPost s w.
+Proof.
+  intros s s0 w (I0 & K0 & N0) W. destruct w as [s' evs|s'|r]; cbn [WPost] in *; [| |exact W].
+  - destruct W as (A & B & C & D & E). split; [assumption|]. split; [eapply KO_trans; eassumption|]. rewrite <- N0. tauto.
+  - destruct W as (A & B & C & D). split; [assumption|]. split; [eapply KO_trans; eassumption|]. rewrite <- N0. tauto.
+Qed.
+
+Lemma TfdM_KO : forall s s', TfdM s -> KO s s' -> TfdM s'.
+Proof. intros s s' T K. eapply TfdM_tm; [exact T|apply KO_tm; exact K]. Qed.
+
+Lemma to_relative_step : forall s abs, InvW s -> WaitStep s (fst (to_relative s abs)).
+Proof.
+  intros s abs I. unfold to_relative. destruct abs; cbn [fst]; [apply WaitStep_validate; assumption|].
+  split; [assumption|split; [apply KO_refl|reflexivity]].
+Qed.
+Lemma to_msec_step : forall s abs, InvW s -> WaitStep s (fst (to_msec s abs)).
+Proof.
+  intros s abs I. unfold to_msec. pose proof (to_relative_step s abs I) as H.
+  destruct (to_relative s abs) as [s1 [r|]]; exact H.
+Qed.
+
+Lemma epoll_wait_m_ok : forall s abs maxev, InvW s -> TfdM s -> WPost s (epoll_wait_m sc s abs maxev).
+Proof.
+  intros s abs maxev I TM. unfold epoll_wait_m.
+  assert (VIA : forall s0, InvW s0 -> TfdM s0 ->
+            WPost s0 (let '(s1, ms) := to_msec s0 abs in do_epoll_wait sc s1 0 maxev (if ms <? 0 then -1 else ms * 1000000))).
+  { intros s0 I0 T0. pose proof (to_msec_step s0 abs I0) as H. destruct (to_msec s0 abs) as [s1 ms]. cbn [fst] in H.
+    eapply WPost_pre; [exact H|]. apply do_epoll_wait_ok; [apply H|eapply TfdM_KO; [exact T0|apply H]]. }
+  destruct (pwait2 s); [|apply VIA; assumption].
+  pose proof (to_relative_step s abs I) as H. destruct (to_relative s abs) as [s1 rel]. cbn [fst] in H.
+  eapply WPost_pre; [exact H|]. destruct H as (I1 & K1 & N1). pose proof (TfdM_KO _ _ TM K1) as T1.
+  destruct (no_pwait2 (flt (kern s1)) || perm_pwait2 (flt (kern s1))).
+  - set (s2 := set_epoll s1 (epfd s1) (tfd s1) false).
+    assert (W2 : WaitStep s1 s2).
+    { split; [apply (InvW_coresame s1); [cs_refl|apply (ms_nobad _ (iw_misc _ I1))|assumption]|].
+      split; [constructor; reflexivity|reflexivity]. }
+    eapply WPost_pre; [exact W2|]. apply VIA; [apply W2|eapply TfdM_KO; [exact T1|apply W2]].
+  - apply do_epoll_wait_ok; assumption.
+Qed.
+
+(* ---------- chaining frames through the poll phase ---------- *)
+Definition Ch (s s' : core) : Prop := (Q3 s -> Q3 s') /\ tm s s' /\ nwait (kern s') = nwait (kern s).
+Lemma Ch_refl : forall s, Ch s s. Proof. intros. split; [tauto|split; [apply tm_refl|reflexivity]]. Qed.
+Lemma Ch_trans : forall a b c, Ch a b -> Ch b c -> Ch a c.
+Proof. intros a b c (A1&A2&A3) (B1&B2&B3). split; [tauto|split; [eapply tm_trans; eassumption|congruence]]. Qed.
+Lemma Ch_KO : forall s s', KO s s' -> nwait (kern s') = nwait (kern s) -> Ch s s'.
+Proof. intros s s' K N. split; [apply KO_Q3; assumption|split; [apply KO_tm; assumption|assumption]]. Qed.
+Lemma Ch_AFr : forall s s', AFr s s' -> Ch s s'.
+Proof. intros s s' A. split; [apply AFr_Q3; assumption|split; [apply AFr_tm; assumption|rewrite (af_kern _ _ A); reflexivity]]. Qed.
+Lemma Ch_StepT : forall s s', StepT s s' -> Ch s s'.
+Proof. intros s s' (I & F & T). split; [intros Q; eapply Q3_Fr; eassumption|split; [assumption|apply (fr_nwait _ _ F)]]. Qed.
+Lemma Ch_kern : forall s k', nwait k' = nwait (kern s) -> Ch s (set_kern s k').
+Proof. intros s k' N. split; [tauto|split; [repeat split|exact N]]. Qed.
+Lemma Ch_restsame : forall s s', restsame s s' -> nwait (kern s') = nwait (kern s) -> epfd s' = epfd s -> Ch s s'.
+Proof.
+  intros s s' R N E. split; [|split; [|assumption]].
+  - intros (A&B&C). unfold Q3. rewrite (rs_heap _ _ R), (rs_cur _ _ R), (rs_evb _ _ R). tauto.
+  - repeat split; [apply (rs_tfd _ _ R)|apply (rs_method _ _ R)|assumption].
+Qed.
+
+Definition PollPost (s s' : core) : Prop :=
+  InvW s' /\ Q3 s' /\ TfdM s' /\ nwait (kern s') = nwait (kern s) + 1 /\ nwait (kern s') <= sc_limit sc.
+
+Let Hh := wf_handlers sc WF.
+
+Lemma epoll_poll_ok : forall s abs, InvW s -> Q3 s -> TfdM s -> is_epoll s = true ->
+  okr (PollPost s) (fst (epoll_poll sc s abs)).
+Proof.
+  intros s abs I Q TM E. unfold epoll_poll. cbv zeta.
+  destruct (flush_pending_ok (S (length (notify s))) s I E ltac:(lia)) as (s1 & F1 & I1 & N1 & W1 & R1 & A1 & NF1 & KC1 & RB1).
+  rewrite F1.
+  assert (C1 : Ch s s1) by (apply Ch_restsame; [assumption|assumption|apply (rs_epfd _ _ R1)]).
+  pose proof (TfdM_tm _ _ TM (proj1 (proj2 C1))) as T1.
+  match goal with |- context [epoll_wait_m sc s1 abs ?m] => pose proof (epoll_wait_m_ok s1 abs m I1 T1) as WP;
+    destruct (epoll_wait_m sc s1 abs m) as [s2 evs|s2|r] end; cbn [WPost] in WP.
+  - destruct WP as (I2 & K2 & N2 & L2 & EV & RD). cbv zeta.
+    assert (C2 : Q3 s2 /\ tm s s2).
+    { split; [apply (KO_Q3 _ _ K2); apply C1; assumption|eapply tm_trans; [apply C1|apply KO_tm; assumption]]. }
+    pose proof (StepT_invalidate s2 I2) as S3. set (s3 := invalidate_now s2) in *.
+    pose proof (epoll_process_ok evs s3 false false (proj1 S3) EV) as (I4 & A4 & TMR).
+    destruct (epoll_process s3 evs false false) as [[s4 re] tmr]. cbn [fst snd] in *.
+    assert (C4 : Ch s2 s4) by (eapply Ch_trans; [apply Ch_StepT; exact S3|apply Ch_AFr; exact A4]).
+    eapply okr_bind with (P := fun s5 => InvW s5 /\ Ch s4 s5).
+    { destruct tmr; [|cbn [okr]; split; [assumption|apply Ch_refl]].
+      destruct (TMR eq_refl) as [X|X]; [discriminate|]. destruct (RD X) as (v & V1 & V2 & V3).
+      assert (KE : kern s4 = kern s2) by (rewrite (af_kern _ _ A4); reflexivity).
+      assert (TE : tfd s4 = tfd s2) by (rewrite (af_tfd _ _ A4); reflexivity).
+      rewrite KE, TE. destruct (tfd_read _ _ _ V1 V2 V3) as (k1 & n & RDK).
+      pose proof (kstable_read (kern s2) (tfd s2) 8) as KS. rewrite RDK in *. cbn [fst] in KS. rewrite <- KE in KS.
+      cbn [okr]. split; [apply InvW_kstable; assumption|apply Ch_kern; apply (kt_nwait _ _ KS)]. }
+    intros s5 (I5 & C5).
+    assert (FIN : forall s6, InvW s6 -> Ch s5 s6 -> PollPost s s6).
+    { intros s6 I6 C6. pose proof (Ch_trans _ _ _ C4 (Ch_trans _ _ _ C5 C6)) as (X1 & X2 & X3).
+      split; [assumption|]. split; [apply X1; apply C2|]. split; [eapply TfdM_tm; [exact TM|eapply tm_trans; [apply C2|exact X2]]|].
+      rewrite X3. lia. }
+    destruct re.
+    + eapply okr_weaken; [apply (run_pending_events_ok sc Hh do_action_ok s5 I5)|].
+      intros s6 S6. apply FIN; [apply S6|apply Ch_StepT; assumption].
+    + cbn [okr]. apply FIN; [assumption|apply Ch_refl].
+  - destruct WP as (I2 & K2 & N2 & L2). cbn [fst okr].
+    pose proof (StepT_invalidate s2 I2) as S3.
+    split; [apply S3|]. split; [eapply Q3_Fr; [|apply S3]; apply (KO_Q3 _ _ K2); apply C1; assumption|].
+    split; [eapply TfdM_tm; [|apply S3]; eapply TfdM_KO; eassumption|].
+    change (nwait (kern (invalidate_now s2))) with (nwait (kern s2)). lia.
+  - cbn [fst]. apply halts_okr. exact WP.
+Qed.
+
+(* ---------- the poll back ends ---------- *)
+Definition Ch1 (s s' : core) : Prop :=
+  (Q3 s -> Q3 s') /\ tm s s' /\ nwait (kern s') = nwait (kern s) + 1 /\ nwait (kern s') <= sc_limit sc.
+
+Lemma do_poll_wait_ok : forall s call timeout, InvW s ->
+  okr (fun s' => InvW s' /\ Ch1 s s') (fst (do_poll_wait sc s call timeout)).
+Proof.
+  intros s call timeout I. unfold do_poll_wait.
+  pose proof (wait_enter_ok s I) as WE. destruct (wait_enter sc s) as [s1|s1]; cbn [okr] in WE; [|exact WE].
+  destruct WE as (I1 & K1 & N1 & L1). cbv zeta.
+  set (s2 := emit s1 (TWait _ _ _ _ _ _)).
+  assert (I2 : InvW s2) by (apply InvW_emit; [assumption|discriminate..]).
+  assert (FIN : forall s3, InvW s3 -> Ch s2 s3 -> InvW s3 /\ Ch1 s s3).
+  { intros s3 I3 (X1 & X2 & X3). split; [assumption|]. split; [|split].
+    - intros Q. apply X1. apply (KO_Q3 _ _ K1) in Q. exact Q.
+    - eapply tm_trans; [apply (KO_tm _ _ K1)|]. eapply tm_trans; [|exact X2]. repeat split.
+    - rewrite X3. change (nwait (kern s2)) with (nwait (kern s1)). tauto. }
+  destruct (mem_z _ _).
+  - set (s3 := if 0 <? timeout then set_kern s2 (k_set_clock (kern s2) (clock (kern s2) + timeout / 2)) else s2).
+    assert (S3 : InvW s3 /\ Ch s2 s3).
+    { subst s3. destruct (0 <? timeout); [|split; [assumption|apply Ch_refl]].
+      split; [apply InvW_kstable; [assumption|apply kstable_clock]|apply Ch_kern; reflexivity]. }
+    destruct S3 as (I3 & C3). cbn [fst okr].
+    pose proof (StepT_emit s3 (TRet None [] (clock (kern s3))) I3 ltac:(discriminate) ltac:(discriminate)) as S4.
+    pose proof (StepT_invalidate _ (proj1 S4)) as S5.
+    apply FIN; [apply S5|]. eapply Ch_trans; [exact C3|]. eapply Ch_trans; apply Ch_StepT; eassumption.
+  - unfold k_poll_sleep. cbv zeta. change (pfds s2) with (pfds s1). change (kern s2) with (kern s1).
+    assert (RDY : forall k1 revs, kstable (kern s2) k1 ->
+       okr (fun s' => InvW s' /\ Ch1 s s')
+           (R (poll_activate (invalidate_now (emit (set_kern s2 k1) (TRet (Some (count_nonzero revs)) (reported_pfds (pfds s1) revs) (clock k1)))) (pkeys s2) revs))).
+    { intros k1 revs KS. cbn [okr].
+      assert (I3 : InvW (set_kern s2 k1)) by (apply InvW_kstable; assumption).
+      pose proof (StepT_emit _ (TRet (Some (count_nonzero revs)) (reported_pfds (pfds s1) revs) (clock k1)) I3 ltac:(discriminate) ltac:(discriminate)) as S4.
+      pose proof (StepT_invalidate _ (proj1 S4)) as S5.
+      match goal with |- context [poll_activate ?a ?b ?c] => destruct (poll_activate_ok b c a (proj1 S5)) as [I6 A6] end.
+      { intros k Hk. apply In_nth_error in Hk. destruct Hk as (n & Hn).
+        destruct (fv_pkey _ _ (iw_fd _ I2) n k Hn) as (L & _). exact L. }
+      apply FIN; [assumption|]. eapply Ch_trans; [apply Ch_kern; apply (kt_nwait _ _ KS)|].
+      eapply Ch_trans; [apply Ch_StepT; exact S4|]. eapply Ch_trans; [apply Ch_StepT; exact S5|apply Ch_AFr; exact A6]. }
+    destruct ((0 <? count_nonzero (poll_eval (kern s1) (pfds s1))) || (timeout =? 0)); cbn [fst].
+    + apply RDY. apply kstable_refl.
+    + destruct (timeout <? 0); cbn [fst].
+      * apply okr_halt; [apply (ms_nobad _ (iw_misc _ I2))|discriminate..].
+      * apply RDY. apply kstable_clock.
+Qed.
+
+Lemma poll_poll_ok : forall s abs, InvW s -> Q3 s -> TfdM s -> is_epoll s = false ->
+  okr (PollPost s) (fst (poll_poll sc s abs)).
+Proof.
+  intros s abs I Q TM E. unfold poll_poll.
+  assert (FIN : forall s0 r, InvW s0 -> Q3 s0 -> TfdM s0 -> nwait (kern s0) = nwait (kern s) ->
+            okr (fun s' => InvW s' /\ Ch1 s0 s') r -> okr (PollPost s) r).
+  { intros s0 r I0 Q0 T0 N0 H. eapply okr_weaken; [exact H|]. intros s' (I' & X1 & X2 & X3 & X4).
+    split; [assumption|]. split; [auto|]. split; [eapply TfdM_tm; eassumption|]. rewrite <- N0. tauto. }
+  assert (VIA : forall s0, InvW s0 -> Q3 s0 -> TfdM s0 -> nwait (kern s0) = nwait (kern s) ->
+            okr (PollPost s) (fst (let '(s1, ms) := to_msec s0 abs in do_poll_wait sc s1 2 (if ms <? 0 then -1 else ms * 1000000)))).
+  { intros s0 I0 Q0 T0 N0. pose proof (to_msec_step s0 abs I0) as (I1 & K1 & N1). destruct (to_msec s0 abs) as [s1 ms]. cbn [fst] in *.
+    apply (FIN s1); [assumption|apply (KO_Q3 _ _ K1); assumption|eapply TfdM_KO; eassumption|congruence|].
+    apply do_poll_wait_ok. assumption. }
+  destruct (Z.eqb_spec (method s) M_PP) as [MP|NP]; [|apply VIA; try assumption; reflexivity].
+  pose proof (to_relative_step s abs I) as (I1 & K1 & N1). destruct (to_relative s abs) as [s1 rel]. cbn [fst] in *.
+  pose proof (KO_Q3 _ _ K1 Q) as Q1. pose proof (TfdM_KO _ _ TM K1) as T1.
+  destruct (no_ppoll (flt (kern s1))).
+  - pose proof (StepT_invalidate s1 I1) as S2. set (s2 := invalidate_now s1) in *.
+    assert (M2 : method s2 = M_PP) by (change (method s2) with (method s1); rewrite (ko_method _ _ K1); assumption).
+    apply VIA.
+    + apply InvW_set_method; [apply S2| |unfold M_PO; lia]. unfold is_epoll. sp. rewrite M2. reflexivity.
+    + destruct (Q3_Fr _ _ Q1 (proj1 (proj2 S2))) as (A&B&C). repeat split; assumption.
+    + intros X. change (tfd (set_method s2 M_PO)) with (tfd s1) in X. apply T1 in X.
+      change (method s2) with (method s1) in M2. rewrite M2 in X. discriminate.
+    + change (nwait (kern (set_method s2 M_PO))) with (nwait (kern s1)). assumption.
+  - apply (FIN s1); try assumption. apply do_poll_wait_ok. assumption.
+Qed.
+
+Lemma m_poll_ok : forall s abs, InvW s -> Q3 s -> TfdM s -> okr (PollPost s) (fst (m_poll sc s abs)).
+Proof.
+  intros s abs I Q T. unfold m_poll. destruct (is_epoll s) eqn:E; [apply epoll_poll_ok|apply poll_poll_ok]; assumption.
+Qed.
+
+(* ---------- iv_fd_timeout_check ---------- *)
+Definition TCPost (s s' : core) : Prop := InvW s' /\ TcFr s s' /\ TfdM s' /\ is_epoll s' = true.
+
+Lemma TCPost_Sm : forall s s', Sm s s' -> method s = M_ET -> TCPost s s'.
+Proof.
+  intros s s' (I & F & (T1 & T2 & T3)) M. split; [assumption|]. split; [assumption|].
+  split; [intros _; congruence|unfold is_epoll; rewrite T2, M; reflexivity].
+Qed.
+
+Lemma set_poll_timeout_ok : forall s a, InvW s -> method s = M_ET -> okr (TCPost s) (fst (set_poll_timeout s a)).
+Proof.
+  intros s a I M. unfold set_poll_timeout.
+  destruct (Z.eqb_spec (tfd s) (-1)) as [T|NT].
+  - unfold k_timerfd_create. destruct (no_timerfd (flt (kern s))).
+    + cbn [fst okr]. split; [|split; [constructor; reflexivity|split; [intros X; contradiction|reflexivity]]].
+      apply InvW_set_method; [apply InvW_kstable; [assumption|apply kstable_refl]| |unfold M_EP; lia].
+      unfold is_epoll. sp. rewrite M. reflexivity.
+    + destruct (k_alloc (kern s) K_TIMERFD) as [fd k1] eqn:KA.
+      destruct (tfd_create_ok' s fd k1 I M T KA) as (s2 & CR & I2 & F2 & T2 & M2 & FD).
+      sp. rewrite CR. cbn [fst okr].
+      pose proof (Sm_settime s2 (if a =? 0 then 1 else a) I2) as (I3 & F3 & T3).
+      split; [assumption|]. split; [eapply TcFr_trans; eassumption|].
+      destruct T3 as (X1 & X2 & X3). split; [intros _; congruence|unfold is_epoll; rewrite X2, M2; reflexivity].
+  - cbn [fst okr]. apply TCPost_Sm; [apply Sm_settime; assumption|assumption].
+Qed.
+
+Lemma timeout_check_ok : forall s abs, InvW s -> method s = M_ET -> okr (TCPost s) (fst (timeout_check s abs)).
+Proof.
+  intros s abs I M. unfold timeout_check. cbv zeta.
+  destruct ((last_abs_count s =? 5) && (0 <=? abs_cmp abs (last_abs s))).
+  { cbn [fst okr]. apply TCPost_Sm; [apply Sm_refl; assumption|assumption]. }
+  set (s1 := if last_abs_count s =? 5 then tfd_settime s 0 else s).
+  assert (S1 : Sm s s1) by (subst s1; destruct (last_abs_count s =? 5); [apply Sm_settime|apply Sm_refl]; assumption).
+  destruct (abs_cmp abs (last_abs s) =? 0).
+  - set (s2 := if last_abs_count s1 <? 5 then set_last_abs s1 (last_abs s1) (last_abs_count s1 + 1) else s1).
+    assert (S2 : Sm s s2).
+    { eapply Sm_trans; [exact S1|]. subst s2. destruct (last_abs_count s1 <? 5); [apply Sm_last_abs|apply Sm_refl]; apply S1. }
+    assert (DONE : okr (TCPost s) (R s2)) by (cbn [okr]; apply TCPost_Sm; assumption).
+    destruct (last_abs_count s2 =? 5); [|cbn [fst]; exact DONE].
+    destruct abs as [a|]; [|cbn [fst]; exact DONE].
+    assert (M2 : method s2 = M_ET) by (destruct S2 as (_ & _ & (_ & X & _)); congruence).
+    eapply okr_weaken; [apply (set_poll_timeout_ok s2 a (proj1 S2) M2)|].
+    intros s3 (I3 & F3 & T3 & E3). split; [assumption|]. split; [eapply TcFr_trans; [apply S2|exact F3]|]. tauto.
+  - destruct abs as [a|]; cbn [fst okr]; (apply TCPost_Sm; [|assumption]); (eapply Sm_trans; [exact S1|]);
+      apply Sm_last_abs; apply S1.
+Qed.
+
+(* ---------- iv_fd_poll_and_run ---------- *)
+Definition LoopInv (s : core) : Prop := InvW s /\ Q3 s /\ TfdM s /\ active s = [].
+
+Definition PRPost (s s' : core) : Prop :=
+  LoopInv s' /\ nwait (kern s') = nwait (kern s) + 1 /\ nwait (kern s') <= sc_limit sc.
+
+Lemma PollPost_pre : forall s s0 r, nwait (kern s0) = nwait (kern s) -> okr (PollPost s0) r -> okr (PollPost s) r.
+Proof.
+  intros s s0 r N H. eapply okr_weaken; [exact H|]. intros s' (A & B & C & D & E). unfold PollPost. rewrite <- N. tauto.
+Qed.
+
+Lemma poll_and_run_ok : forall s abs, LoopInv s -> okr (PRPost s) (fst (poll_and_run sc s abs)).
+Proof.
+  intros s abs (I & Q & TM & AC). unfold poll_and_run.
+  match goal with |- context [let '(r, rt) := ?X in (bind r _, rt)] =>
+    assert (MP : okr (PollPost s) (fst X)); [|destruct X as [r rt]] end.
+  { destruct (Z.eqb_spec (method s) M_ET) as [M|NM]; [|apply m_poll_ok; assumption].
+    pose proof (timeout_check_ok s abs I M) as TC.
+    destruct (timeout_check s abs) as [[s1|s1] b]; cbn [fst okr] in TC; [|cbn [fst okr]; exact TC].
+    destruct TC as (I1 & F1 & T1 & E1). pose proof (TcFr_Q3 _ _ F1 Q) as Q1.
+    destruct b.
+    - pose proof (m_poll_ok s1 None I1 Q1 T1) as MP. destruct (m_poll sc s1 None) as [r rt]. cbn [fst] in *.
+      apply (PollPost_pre s s1); [apply (tc_nwait _ _ F1)|].
+      eapply okr_bind; [exact MP|]. intros s2 (I2 & Q2 & T2 & N2 & L2). cbn [okr].
+      destruct rt; [|split; [assumption|split; [assumption|split; [assumption|split; assumption]]]].
+      destruct (Sm_last_abs s2 (last_abs s2) 0 I2) as (I3 & F3 & T3).
+      split; [assumption|]. split; [apply (TcFr_Q3 _ _ F3); assumption|]. split; [eapply TfdM_tm; eassumption|].
+      rewrite (tc_nwait _ _ F3). tauto.
+    - apply (PollPost_pre s s1); [apply (tc_nwait _ _ F1)|]. apply m_poll_ok; assumption. }
+  cbn [fst] in *. eapply okr_bind; [exact MP|].
+  intros s1 (I1 & Q1 & T1 & N1 & L1).
+  eapply okr_weaken; [apply (dispatch_active_ok sc Hh do_action_ok (S (length (active s1))) s1 I1); lia|].
+  intros s2 (I2 & Q2 & T2 & A2). split; [|rewrite (fq_nwait _ _ Q2); tauto].
+  split; [assumption|]. split; [eapply Q3_Fq; eassumption|]. split; [eapply TfdM_tm; eassumption|assumption].
+Qed.
+
+(* ---------- iv_main ---------- *)
+Lemma LoopInv_Ph : forall s s', LoopInv s -> PhPost s s' -> LoopInv s' /\ nwait (kern s') = nwait (kern s).
+Proof.
+  intros s s' (I & Q & T & A) (I' & Q' & T' & N' & A'). split; [|assumption].
+  split; [assumption|]. split; [assumption|]. split; [eapply TfdM_tm; eassumption|].
+  rewrite A in A'. destruct (active s'); [reflexivity|cbn in A'; lia].
+Qed.
+
+Lemma main_loop_ok : forall fuel s rt, LoopInv s -> nwait (kern s) <= sc_limit sc ->
+  (Z.to_nat (sc_limit sc - nwait (kern s)) < fuel)%nat -> okr LoopInv (main_loop sc fuel s rt).
+Proof.
+  induction fuel as [|f IH]; intros s rt L NL FU; [lia|].
+  cbn [main_loop].
+  eapply okr_bind with (P := fun s1 => LoopInv s1 /\ nwait (kern s1) = nwait (kern s)).
+  { destruct rt; [|cbn [okr]; split; [assumption|reflexivity]].
+    eapply okr_weaken; [apply (run_timers_ok sc Hh do_action_ok s); apply L|]. intros s1 P. apply LoopInv_Ph; assumption. }
+  intros s1 (L1 & N1).
+  eapply okr_bind with (P := fun s2 => LoopInv s2 /\ nwait (kern s2) = nwait (kern s)).
+  { eapply okr_weaken; [apply (run_tasks_ok sc Hh do_action_ok s1); apply L1|]. intros s2 P.
+    destruct (LoopInv_Ph _ _ L1 P). split; [assumption|congruence]. }
+  intros s2 (L2 & N2).
+  destruct (quit s2 || (numobjs s2 =? 0)); [cbn [okr]; assumption|]. cbv zeta.
+  match goal with |- context [poll_and_run sc s2 ?a] => pose proof (poll_and_run_ok s2 a L2) as PR;
+    destruct (poll_and_run sc s2 a) as [r rt'] end. cbn [fst] in PR.
+  eapply okr_bind; [exact PR|]. intros s3 (L3 & N3 & M3). apply IH; [assumption|assumption|lia].
 Qed.
 
 End Wait.
